@@ -227,7 +227,7 @@ def skew_of(kind, ts, seed):
 
 def variant(rng):
     ts = rng.choice([0, 1])
-    lf = rng.choice(["1.0", "1.0", "0.05", "0.5", "4.0", "64.0"])
+    lf = rng.choice(["1.0", "1.0", "0.05", "0.25", "0.5", "4.0", "64.0"])
     val = rng.choice(["u", "c"])
     seed = rng.randrange(1, 1 << 30)
     return ts, lf, val, seed
@@ -338,7 +338,7 @@ def extreme_applicable(kind, fam):
     return True
 
 
-def gen_extreme(rng, kind, fam=None, huge=False):
+def gen_extreme(rng, kind, fam=None, huge=False, lf=None):
     """One script of an 'unusual input' family:
     hot      one key used hundreds (rarely: tens of thousands) of times - counts past 127/255/32767/65535
     bigttl   TTLs of minutes ... 146 years (ms counts past 2^31, 2^32; ns counts past 2^53, 2^62/… ) with the
@@ -485,13 +485,18 @@ def gen_extreme(rng, kind, fam=None, huge=False):
                 c.emit(0, ["ins", k, c.fresh_val(), c.allow(), 0])
                 c.maybe.add(k)
         drain(c)
-    ts, lf, val, seed = variant(r)
-    return [cfg_line(c, "single", ts, lf, val, seed)] + c.lines + ["end"]
+    ts, lf0, val, seed = variant(r)
+    return [cfg_line(c, "single", ts, lf if lf is not None else lf0, val, seed)] + c.lines + ["end"]
 
 
 def extremes_fixed(rng, kind):
-    """One script of every applicable family (run by every check whose modes include `single`)."""
-    return [gen_extreme(rng, kind, fam) for fam in EXTREME_FAMILIES if extreme_applicable(kind, fam)]
+    """One script of every applicable family (run by every check whose modes include `single`); bounded kinds get
+    the capacity-16..64 family once more with a load factor below 1 (a hash index sized in buckets instead of
+    elements rehashes only then, and only once more than a dozen entries are resident: seeds V-C08, X-C08)."""
+    out = [gen_extreme(rng, kind, fam) for fam in EXTREME_FAMILIES if extreme_applicable(kind, fam)]
+    if extreme_applicable(kind, "longcap"):
+        out.append(gen_extreme(rng, kind, "longcap", lf=rng.choice(["0.05", "0.25", "0.5"])))
+    return out
 
 
 def gen_single(rng, kind, maxops=60):
